@@ -28,8 +28,19 @@ def shadowed(rng, b):
     p = rng.choice(comps)
     base = os.path.basename(p)
     decoy_dir = "zz_decoy"
+    kind = rng.choice(["same", "other", "both"])
     # a decoy that would change the output if it were picked: an empty-ish component with other ports
-    b2.texts[os.path.join(decoy_dir, base)] = "declare component Decoy: ->\nsequence q = \"3N\"\nstrand Q = q\n"
+    if kind in ("same", "both"):
+        b2.texts[os.path.join(decoy_dir, base)] = "declare component Decoy: ->\nsequence q = \"3N\"\nstrand Q = q\n"
+    # a decoy of the OTHER kind (X.sys for an imported X.comp, and for one imported .sys an X.comp) in the later directory: the
+    # first directory that has X.sys or X.comp decides, so a nearer file of either kind wins over it
+    if kind in ("other", "both"):
+        b2.texts[os.path.join(decoy_dir, base[:-5] + ".sys")] = "declare system Decoy: ->\n"
+        syss = [q for q in b.texts if q.endswith(".sys") and q != b.entry and os.path.basename(q) != os.path.basename(b.entry)]
+        if syss:
+            q = rng.choice(syss)
+            b2.texts[os.path.join(decoy_dir, os.path.basename(q)[:-4] + ".comp")] = \
+                "declare component Decoy3: ->\nsequence q = \"4W\"\nstrand Q = q\n"
     b2.includes = b2.includes + [decoy_dir]
     # a decoy beside the TOP importer for a template that a library system imports from its own directory by bare
     # name: the importing file's directory comes first, so the decoy must be ignored
@@ -84,7 +95,7 @@ def run(st, tier, seed):
         if b is None:
             continue
         bundles.append(("s%d" % i, b))
-        if rng.random() < 0.25:
+        if rng.random() < 0.35:
             b2 = shadowed(rng, b)
             if b2 is not None:
                 res.count("decoy-later-in-search-path")
